@@ -1450,12 +1450,17 @@ def npyfile_case(ctx, be, kind, c, key, norm):
                 ctx.disagree(sig + 'symptom=object_unreadable', c, repr(e)[:200], key, 'stored object is not a valid .npy file')
                 return
             off = len(raw) - len(body)
-            if (ver, oshape, fo, odt) != ((1, 0), shape, False, dtype) or not same(back, x) or body != np.ascontiguousarray(x).tobytes():
-                ctx.disagree(sig + 'symptom=object_content', c, [list(ver), list(oshape), fo, str(odt)], [[1, 0], list(shape), False, str(dtype)],
-                             'stored .npy object: version / shape / order / dtype / body differ from the chunk written')
+            if not same(back, x):
+                ctx.disagree(sig + 'symptom=object_content', c, repr(back.ravel()[:3]), None,
+                             'numpy reads the stored .npy object as something else than the chunk written', spec=repr(x.ravel()[:3]))
+                return
+            # tie (every dtype): the model writes format 1.0, fortran_order False, the C-order listing of the logical elements
+            if (ver, oshape, fo, odt) != ((1, 0), shape, False, dtype) or body != np.ascontiguousarray(x).tobytes():
+                ctx.disagree(sig + 'symptom=object_header', c, [list(ver), list(oshape), fo, str(odt)], [[1, 0], list(shape), False, str(dtype)],
+                             'stored .npy object: version / shape / order / dtype / body differ from the model object', kind='tie')
                 return
             if off % 64 != 0 or raw[off - 1:off] != b'\n':
-                ctx.disagree(sig + 'symptom=header_alignment', c, off, 'multiple of 64', 'the body of the stored object does not start on a 64-byte boundary')
+                ctx.disagree(sig + 'symptom=header_alignment', c, off, 'multiple of 64', 'the body of the stored object does not start on a 64-byte boundary (model: it does)', kind='tie')
                 return
             if descr is not None:
                 its = npyf_items(x)
